@@ -8,20 +8,20 @@ Import ListNotations.
 Local Open Scope nat_scope.
 
 (* ---- number forms -------------------------------------------------------------------------------- *)
-(* "-5d1" is a number of the documented grammar (-50) that convert_fortran_number rejects *)
-Theorem signed_d_refuted :
-  exists s : str, fortran_number s = true /\ signed_d s = true /\ convert s = None /\ Qeq (value s) (-50 # 1).
-Proof. exists (s_of [45;53;100;49]). repeat split; vm_compute; reflexivity. Qed.
+(* FIXED by 0a78c77 (re.fullmatch): "-5d1" (signed mantissa, D exponent) is now converted to -50 ... *)
+Example signed_d_fixed :
+  let s := s_of [45;53;100;49] in
+  fortran_number s = true /\ match convert s with Some q => Qeq_bool q (-50 # 1) | None => false end = true.
+Proof. split; vm_compute; reflexivity. Qed.
+(* ... and "2-1-1" (formerly 0.2, trailing characters ignored) is rejected *)
+Example anchored_fixed :
+  let s := s_of [50;45;49;45;49] in
+  g_charset s = true /\ fortran_number s = false /\ convert s = None.
+Proof. repeat split; vm_compute; reflexivity. Qed.
 
-(* "2-1-1" is outside the grammar, over the documented alphabet, and converted to 0.2 *)
-Theorem anchored_refuted :
-  exists s : str, g_charset s = true /\ g_anchored s = false /\ fortran_number s = false /\
-                  exists q, convert s = Some q /\ Qeq q (2 # 10).
-Proof. exists (s_of [50;45;49;45;49]). repeat split; try (vm_compute; reflexivity). eexists. split; vm_compute; reflexivity. Qed.
-
-(* "1_0" is outside the documented alphabet and converted to 10 *)
+(* STILL OPEN (C13-NUM-UNDERSCORE): "1_0" is outside the documented alphabet and converted to 10 *)
 Theorem charset_refuted :
-  exists s : str, g_charset s = false /\ g_anchored s = true /\ fortran_number s = false /\
+  exists s : str, g_charset s = false /\ fortran_number s = false /\
                   exists q, convert s = Some q /\ Qeq q (10 # 1).
 Proof. exists (s_of [49;95;48]). repeat split; try (vm_compute; reflexivity). eexists. split; vm_compute; reflexivity. Qed.
 
@@ -104,34 +104,40 @@ Definition refutes (k : nat) (i : input) : Prop :=
 
 Ltac refute := split; [vm_compute; reflexivity | vm_compute; let H := fresh in (intro H; discriminate H)].
 
-(* g_ignchar: IGNORE=^ -> re.error *)
-Theorem ignchar_refuted : exists i, refutes 1 i.
-Proof. exists w_ignchar. refute. Qed.
-(* g_last_comment: a comment on the last line without newline -> DatasetError *)
-Theorem last_comment_refuted : exists i, refutes 2 i.
-Proof. exists w_last_comment. refute. Qed.
-(* g_blank: a blank line in the middle is skipped silently *)
-Theorem blank_refuted : exists i, refutes 3 i.
-Proof. exists w_blank. refute. Qed.
-(* g_first_width: first row wider than $INPUT -> KeyError *)
-Theorem first_width_refuted : exists i, refutes 5 i.
-Proof. exists w_first_width. refute. Qed.
-(* g_rows_within: rows are cut to the width of the first row *)
-Theorem rows_within_refuted : exists i, refutes 6 i.
+(* ---- STILL OPEN ------------------------------------------------------------------------------------------ *)
+(* g_rows_within (C13-SHORT-FIRST-ROW): rows are cut to the width of the first row *)
+Theorem rows_within_refuted : exists i, refutes 2 i.
 Proof. exists w_rows_within. split; [vm_compute; reflexivity | vm_compute; intro H; inversion H]. Qed.
-(* g_filter_cols: a text filter sees the NULL padding *)
-Theorem filter_cols_refuted : exists i, refutes 7 i.
-Proof. exists w_filter_cols. split; [vm_compute; reflexivity | vm_compute; intro H; inversion H]. Qed.
-(* g_items_signed_d / anchored / charset at the level of the reader *)
-Theorem items_signed_d_refuted : exists i, refutes 8 i.
-Proof. exists w_items_signed_d. refute. Qed.
-Theorem items_anchored_refuted : exists i, refutes 9 i.
-Proof. exists w_items_anchored. refute. Qed.
-Theorem items_charset_refuted : exists i, refutes 10 i.
+(* g_items charset (C13-NUM-UNDERSCORE) at the level of the reader *)
+Theorem items_charset_refuted : exists i, refutes 3 i.
 Proof. exists w_items_charset. refute. Qed.
-(* g_id_drop: a dropped ID column with text -> ValueError *)
-Theorem id_drop_refuted : exists i, refutes 11 i.
+(* g_id_drop (C13-ID-DROP-TEXT): a dropped ID column with text -> ValueError *)
+Theorem id_drop_refuted : exists i, refutes 4 i.
 Proof. exists w_id_drop. refute. Qed.
+
+(* ---- FIXED: the former witnesses now satisfy the whole guard and the code reads them like the reference ---- *)
+Definition repaired (i : input) : Prop :=
+  guard i = true /\ project_kept i (read_model i) = spec_read i.
+Ltac repaired_tac := split; vm_compute; reflexivity.
+(* 8a96a4a: IGNORE=^ no longer raises re.error; a comment on the last line without newline is removed *)
+Example ignchar_fixed : repaired w_ignchar.
+Proof. repaired_tac. Qed.
+Example last_comment_fixed : repaired w_last_comment /\ exists t, read_model w_last_comment = Ok t /\ map (fun c => length (snd c)) t = [2; 2; 2].
+Proof. split; [repaired_tac | eexists; split; vm_compute; reflexivity]. Qed.
+(* f9c38b4: a blank line in the middle is reported *)
+Example blank_fixed : repaired w_blank /\ read_model w_blank = Err DatasetError.
+Proof. split; [repaired_tac | vm_compute; reflexivity]. Qed.
+(* c9e4304: a first row wider than $INPUT is cut *)
+Example first_width_fixed : repaired w_first_width /\ exists t, read_model w_first_width = Ok t /\ map (fun c => length (snd c)) t = [2; 2; 2].
+Proof. split; [repaired_tac | eexists; split; vm_compute; reflexivity]. Qed.
+(* 6a54a3e: IGNORE=(DV.EQ.0) on a missing column removes nothing *)
+Example filter_cols_fixed : repaired w_filter_cols /\ exists t, read_model w_filter_cols = Ok t /\ map (fun c => length (snd c)) t = [2; 2; 2].
+Proof. split; [repaired_tac | eexists; split; vm_compute; reflexivity]. Qed.
+(* 0a78c77 at the level of the reader: -5d1 is read, 2-1-1 is an error in both *)
+Example items_signed_d_fixed : repaired w_items_signed_d /\ exists t, read_model w_items_signed_d = Ok t.
+Proof. split; [repaired_tac | eexists; vm_compute; reflexivity]. Qed.
+Example items_anchored_fixed : repaired w_items_anchored /\ read_model w_items_anchored = Err DatasetError.
+Proof. split; [repaired_tac | vm_compute; reflexivity]. Qed.
 
 (* ---- write/read cycle: the generated $INPUT keeps an anonymous DROP ------------------------------------ *)
 (* a toy printer for the witness: integers and halves, "x.0" / "x.5" *)
